@@ -15,7 +15,7 @@ from gemdat.rdf import radial_distribution  # noqa: E402
 from gemdat.volume import trajectory_to_volume  # noqa: E402
 
 PID = 'C07'
-MODULES = ['GProofs.Geometry', 'GProofs.C07']
+MODULES = ['GProofs.Geometry', 'GProofs.C07', 'GProofs.C07Pipe']
 JCOLS = ['atom index', 'start site', 'destination site', 'start time', 'stop time']
 ECOLS = ['atom index', 'start site', 'destination site', 'start inner site', 'destination inner site', 'time']
 LATS = ['cubic', 'ortho', 'mono', 'tric', 'hexlike']
@@ -72,6 +72,10 @@ def analyse(lat, coords, sites, framework, labels, endpoints=None, do_path=True)
         try:
             j = tr.jumps()
             res['jumps'] = sorted(map(tuple, j.data[JCOLS].to_numpy().tolist()))
+            try:
+                res['jumps_mr2'] = sorted(map(tuple, tr.jumps(minimal_residence=2).data[JCOLS].to_numpy().tolist()))
+            except ValueError:
+                res['jumps_mr2'] = []
             res['matrix'] = np.array(j.matrix())
             res['jump_diff'] = float(j.jump_diffusivity(3))
             try:
@@ -80,6 +84,7 @@ def analyse(lat, coords, sites, framework, labels, endpoints=None, do_path=True)
                 res['n_solo'] = None
         except ValueError:
             res['jumps'] = []
+            res['jumps_mr2'] = []
         rd = radial_distribution(transitions=tr, floating_specie='Li', max_dist=4.0, resolution=0.45)  # squared distances are dyadic, (0.45 k)^2 never is: no pair sits on a bin edge
         res['rdf'] = {(state, r.label): np.array(r.y).tolist() for state, coll in rd.items() for r in coll}
         m = traj.filter('Li').metrics()
@@ -101,6 +106,49 @@ def analyse(lat, coords, sites, framework, labels, endpoints=None, do_path=True)
             except Exception:  # noqa: BLE001
                 res['path'] = (tuple(map(int, a)), tuple(map(int, b)), None)
     return res
+
+
+def model_pipeline(lat, coords, sites, radius=1.0, frac=0.5):
+    """GModel.Pipeline.run for every atom (driver op `pipe`): states, inner states, events, jumps for minimal residence 0 and 2"""
+    from .core import enc
+    coords = np.array(coords, float)
+    T, A, _ = coords.shape
+    sites_s = ' '.join([str(len(sites))] + [' '.join(enc(v) for v in s_) + ' ' + enc(radius) for s_ in np.array(sites, float).tolist()])
+    lines = [(f'{mr}:{a}', f'pipe {gem.enc_m3(lat)} {enc(frac)} {mr} {sites_s} {gem.enc_v3s(coords[:, a])}') for mr in (0, 2) for a in range(A)]
+    got = core.drive(lines)
+    res = {'states': np.zeros((T, A), int), 'inner': np.zeros((T, A), int), 'events': [], 'jumps': [], 'jumps_mr2': []}
+    for a in range(A):
+        for mr in (0, 2):
+            parts = got[f'{mr}:{a}'].split('|')
+            assert parts[0].split()[0] == 'ok', got[f'{mr}:{a}']
+            jv = list(map(int, parts[3].split()))
+            res['jumps' if mr == 0 else 'jumps_mr2'] += [(a, *jv[1 + 4 * k: 5 + 4 * k]) for k in range(jv[0])]
+        res['states'][:, a] = list(map(int, parts[0].split()[1:]))
+        res['inner'][:, a] = list(map(int, parts[1].split()))
+        ev = list(map(int, parts[2].split()))
+        # model row: t s0 s1 i0 i1  ->  ECOLS order
+        res['events'] += [(a, ev[2 + 5 * k], ev[3 + 5 * k], ev[4 + 5 * k], ev[5 + 5 * k], ev[1 + 5 * k]) for k in range(ev[0])]
+    for k in ('events', 'jumps', 'jumps_mr2'):
+        res[k] = sorted(res[k])
+    return res
+
+
+def check_pipeline(out, case, what, lat, coords, sites, impl):
+    """correspondence at both ends of the C07Pipe theorems: the implementation's states / inner states / events / jumps of THIS
+    representation of the system equal what the composed model computes from the same numbers"""
+    mod = model_pipeline(lat, coords, sites)
+    c = {**case, 'transformation': what}
+    for k in ('states', 'inner'):
+        if not np.array_equal(mod[k], impl[k]):
+            out.fail('correspondence', f'model-pipeline-{k}', c, expected=mod[k].T.tolist(), observed=impl[k].T.tolist(), note=what.split(':')[0])
+            return False
+    for k in ('events', 'jumps', 'jumps_mr2'):
+        want = [tuple(int(x) for x in r) for r in impl[k]]
+        if mod[k] != want:
+            out.fail('correspondence', f'model-pipeline-{k}', c, expected=mod[k][:8], observed=want[:8], note=what.split(':')[0])
+            return False
+    out.count('pipeline-model-agrees')
+    return True
 
 
 def close(a, b, tol=1e-9):
@@ -136,6 +184,9 @@ def compare(out, case, base, other, what, atom_perm=None, site_perm=None, roll=N
     jm = sorted((inv_a[j[0]], inv_s(j[1]), inv_s(j[2]), j[3], j[4]) for j in base['jumps'])
     if other['jumps'] != jm:
         return fail('jumps-invariant', jm[:6], other['jumps'][:6])
+    jm2 = sorted((inv_a[j[0]], inv_s(j[1]), inv_s(j[2]), j[3], j[4]) for j in base['jumps_mr2'])
+    if other['jumps_mr2'] != jm2:
+        return fail('jumps-invariant', jm2[:6], other['jumps_mr2'][:6])
     if base['jumps']:
         M = base['matrix']
         expM = M if sp is None else M[np.ix_(sp, sp)]
@@ -179,6 +230,7 @@ def check_case(out: Outcome, case, tag, rng):
         out.count('no-events')
         return
     # expected site assignment sanity (margin): the generator's geometry keeps every decision >= 0.2 A from a sphere surface
+    check_pipeline(out, case, 'identity', lat, coords, sites, base)
     trans = []
     # (1) rigid rotations of the lattice vectors, same fractional coordinates
     trans.append(('rotation:signed-permutation', dict(lat=gem.exact_orientation(rng, lat))))
@@ -215,6 +267,7 @@ def check_case(out: Outcome, case, tag, rng):
             out.fail('property', 'transformed-system-has-no-events', {**case, 'transformation': what})
             continue
         compare(out, case, base, other, what, atom_perm=kw.get('atom_perm'), site_perm=kw.get('site_perm'), roll=kw.get('roll'))
+        check_pipeline(out, case, what, kw.get('lat', lat), kw.get('coords', coords), kw.get('sites', sites), other)
         out.count('t:' + what.split(':')[0])
     wraps = bool(len(base['jumps']) >= 1)
     if wraps and case['lattice_name'] != 'cubic':
@@ -293,7 +346,9 @@ SPEC = PropertySpec(
           'from_parameters orientation), 2 translations of atoms and sites together through the cell faces (dyadic vector; multiples of '
           'the voxel size), an atom permutation and a site permutation. Compared up to the corresponding relabelling: states, inner '
           'states, events, jumps, jump matrix, jump diffusivity (1e-9), collective solo count, per-state RDFs, tracer diffusivity and '
-          'density, density volume and free energy (identical, or rolled by the voxel shift), optimal-path cost. Non-trivial: >= 1 '
+          'density, density volume and free energy (identical, or rolled by the voxel shift), optimal-path cost. In EVERY representation '
+          'the states, inner states, events and jumps (minimal residence 0 and 2) are also compared with GModel.Pipeline.run (driver op '
+          'pipe) on the same numbers, which ties the end-to-end theorems of C07Pipe to the code at both ends. Non-trivial: >= 1 '
           'jump in a non-cubic cell.'),
     trusted=['the geometry of generated systems keeps every site-assignment decision >= 0.2 A away from a sphere surface, so float noise of non-exact rotations cannot flip it'],
     assumptions=['NoTie; strongly skewed non-reduced cells are excluded here (known finding D16 of C02)'],
